@@ -329,15 +329,34 @@ func vacuityChecks(gr *genResult, prop string) []string {
 		for _, li := range fv.loopList {
 			if g, ok := fv.blockIn[li.head]; ok {
 				add(fmt.Sprintf("loop%d", li.ord), g, li.head.Index)
+				// reachability of the loop from outside (forward edges only, loop invariants not assumed): a loop in code
+				// that the contract's assumptions make unreachable is dead code, not a vacuity problem
+				var enter []Term
+				for _, p := range li.head.Preds {
+					if !fv.isBackEdge(p, li.head) {
+						enter = append(enter, Term(sanitize(fmt.Sprintf("e_b%d_b%d", p.Index, li.head.Index))))
+					}
+				}
+				if len(enter) > 0 {
+					add(fmt.Sprintf("loop%d:reach", li.ord), or(enter...), li.head.Index)
+				}
 			}
 		}
 	}
 	runJobs(jobs, 16)
 	close(ch)
+	status := map[string]string{}
 	for v := range ch {
-		if v.st == "unsat" {
-			out = append(out, v.name+": assumptions are contradictory (everything would be provable)")
+		status[v.name] = v.st
+	}
+	for name, st := range status {
+		if st != "unsat" || strings.HasSuffix(name, ":reach") {
+			continue
 		}
+		if status[name+":reach"] == "unsat" {
+			continue // the loop cannot be entered under the contract's assumptions
+		}
+		out = append(out, name+": assumptions are contradictory (everything would be provable)")
 	}
 	sort.Strings(out)
 	return out
